@@ -33,6 +33,7 @@ type Profile struct {
 	MaxAttempt []int32
 	Decoy      bool
 	ProbeOnly  bool // every pull is probe-sized (twin runs)
+	NoTick     bool // no per-statement clock tick (needed when background goroutines use the database)
 }
 
 var attrNames = []string{"a", "b", "kind"}
